@@ -39,6 +39,10 @@ class _BaseLSML(MahalanobisMixin):
     else:
       # (a float copy: lists are accepted and the caller's array is not modified)
       self.w_ = np.array(weights, dtype=float)
+      if self.w_.shape != (vab.shape[0],):
+        raise ValueError('`weights` should hold one weight per quadruplet: '
+                         'expected shape ({},), got {}.'
+                         .format(vab.shape[0], self.w_.shape))
     self.w_ /= self.w_.sum()  # weights must sum to 1
     M, prior_inv = _initialize_metric_mahalanobis(
         quadruplets, self.prior,
